@@ -60,6 +60,20 @@ def J(test, checks=None, shards=1, race=False, env=None, procs=None, timeout=900
 
 
 PROPS = {
+    "C01": dict(
+        level="exploration",
+        rule="rapid state machine over the real cache actor (hook NewVerifCache): initial filter from a 12-filter family x sequences of sync/update/refilter over 4 keys, versions -2..40 plus malformed strings, 3 label values, lists with duplicates and malformed entries; after every operation List/Get are compared with the reference model. Plus the bounded-exhaustive universe of the property (2 keys x versions 0..5 x 2 labels x 4 filters: every single next operation from every reachable state; quick samples every 4th state). Non-trivial = the sequence contains an operation with an incoming version <= the cached one, or a filter rejecting a cached key, or a duplicate/malformed entry (enumeration: a non-empty state); distinct = hash of the rendered operation sequence / state.",
+        assumptions=["the cache actor is driven through the add-only hook NewVerifCache (build tag verif)", "for keys occurring twice in one list or with non-numeric versions only the invariants are demanded (the statement names them only in its no-crash clause)", "a delete older than the cached version may have either outcome"],
+        quick=[J("TestC01_Random", checks=4000, shards=6), J("TestC01_Enum", env={"VERIF_ENUM_STRIDE": "4"})],
+        thorough=[J("TestC01_Random", checks=25000, shards=12), J("TestC01_Enum", shards=4, timeout=1800)],
+    ),
+    "C02": dict(
+        level="exploration",
+        rule="same generators as C01 (rapid state machine + bounded-exhaustive universe); oracle: the events returned by each mutation, replayed strictly (Create only if absent, Update only if present and strictly newer, Delete only if present) over the content read before the call give exactly the content read after it, by object identity, and an unchanged content comes with no event. Non-trivial = the sequence contains at least one operation that changes nothing and at least one that emits >= 2 events (enumeration: a non-empty state); distinct = hash of the rendered sequence / state.",
+        assumptions=["the cache actor is driven through the add-only hook NewVerifCache (build tag verif)", "the tree-level part (a consumer mirroring a node by replaying its events never diverges) is exercised by the strict mirrors of the C03/C06 harness"],
+        quick=[J("TestC02_Random", checks=4000, shards=6), J("TestC02_Enum", env={"VERIF_ENUM_STRIDE": "4"})],
+        thorough=[J("TestC02_Random", checks=25000, shards=12), J("TestC02_Enum", shards=4, timeout=1800)],
+    ),
     "C19": dict(
         level="exploration",
         rule="bounded-exhaustive: for each of the 7 workload kinds every source set of <=2 (thorough: <=3) workloads over 2 namespaces x selector variants {absent, empty, one label, two labels, In, NotIn, Exists} x template labels {absent, one label} against every pod over 2 namespaces x 9 label maps; every set of <=2 ingresses (default backend absent/empty/named x 0-3 paths) against 6 services; node/involved/selector-match filters over their argument universes against pods, services, events and foreign kinds; plus rapid-generated source sets (<=3 sources, 3 namespaces, 16 label maps). Oracle = reference ownership predicates. Non-trivial = sources in >1 namespace, or a source lacking a selector / using set-based requirements, or an ingress with >1 backend; distinct = distinct filter rendering.",
@@ -169,7 +183,7 @@ def run_jobs(prop, tier, jobs, seed, workdir, log):
         outpath = os.path.join(cwd, "output.txt")
         outf = open(outpath, "w")
         p = subprocess.Popen(args, cwd=cwd, env=e, stdout=outf, stderr=subprocess.STDOUT)
-        return dict(proc=p, job=j, ji=ji, shard=s, cwd=cwd, out=outpath, outf=outf, start=time.time(), seed=rseed, args=args)
+        return dict(proc=p, job=j, ji=ji, shard=s, cwd=cwd, out=outpath, outf=outf, start=time.time(), seed=rseed, args=args, env=e)
 
     while pending or running:
         while pending and len(running) < maxpar:
@@ -303,13 +317,25 @@ def first_panic_line(text):
 
 def write_crash_replay(prop, r, workdir):
     """A worker death leaves no rapid fail file: save the invocation (rapid
-    cases are a pure function of the seed) plus the tail of the output."""
+    cases are a pure function of the seed) plus the tail of the output, and
+    re-run the shard once with VERIF_TRACE=1 so that the operations leading
+    to the crash are part of the replay file."""
     os.makedirs(REPLAYS, exist_ok=True)
+    history = []
+    try:
+        e = dict(r["env"])
+        e["VERIF_TRACE"] = "1"
+        e.pop("VERIF_STATS_DIR", None)
+        rr = subprocess.run(r["args"], cwd=r["cwd"], env=e, stdout=subprocess.PIPE, stderr=subprocess.DEVNULL,
+                            text=True, errors="replace", timeout=min(300, r["job"]["timeout"]))
+        history = [l for l in rr.stdout.splitlines() if l.startswith("TRACE ")][-80:]
+    except Exception as ex:  # noqa
+        history = [f"(trace re-run failed: {ex})"]
     p = os.path.join(REPLAYS, f"{prop}-{r['job']['test']}-crash-{int(time.time())}-{r['shard']}.json")
     with open(p, "w") as f:
         json.dump({"property": prop, "test": r["job"]["test"], "kind": "crash", "rapid_seed": r["seed"],
                    "checks": r["job"]["checks"], "env": r["job"]["env"], "shard": f"{r['shard']}/{r['job']['shards']}",
-                   "race": r["job"]["race"], "output_tail": r["text"][-6000:]}, f, indent=1)
+                   "race": r["job"]["race"], "history_tail": history, "output_tail": r["text"][-6000:]}, f, indent=1)
     return p
 
 
